@@ -16,7 +16,7 @@ RULE = ('named crystal pool (Bravais/multi-site, 2-D/3-D, one or several Wyckoff
         'non-trivial = rates not all equal or more than one site; distinct = (crystal, Nthermo, input index)')
 ASSUMPTIONS = ['real Green function: tolerance 1e-5 x |L0vv| (the property qualifies these identities by integration accuracy; '
                'observed <= 4e-7); a larger error is accepted only if it shrinks on denser k-meshes (NGFmax 8: not larger, 12: at most half) - '
-               'seen on the 2-D displaced triangular lattice with anisotropic rates (1e-4)', 'torus Green function: 1e-9 x |L0vv| (1e-4 for crystals with origin states, see C01)',
+               'seen on the 2-D displaced triangular lattice with anisotropic rates (1e-4)', 'torus Green function: 1e-9 x |L0vv| x max(1, rate spread / 100) (rounding of the linear solves grows with the condition number: 1.8e-8 observed at a spread of 7e4 on double hcp; 1e-4 for L1vv on crystals with origin states, see C01)',
                'matrix inequalities with margin 1e-6 x |L0vv|; a violation at the default k-point density is decided by the same mesh-convergence rule (2-D displaced triangular lattice, Nthermo=2, rate ratio 900: lambda_min(Lss)/|L0vv| = -0.46 (NGFmax 4), -0.07 (8), +0.02 (12))']
 REQUIRED_OBS = {'eval:C06:real:Lsv=-L0vv': 20, 'eval:C06:real:L1vv=0': 20, 'eval:C06:stub:Lsv=-L0vv': 20,
                 'eval:C06:0<=Lss<=L0vv': 20, 'multi_wyckoff': 3, 'dim2': 3}
@@ -75,6 +75,12 @@ def run_case(case):
             diff.GFcalc = real
             diff.clearcache()
         sc = max(np.abs(Lr[0]).max(), 1e-300)
+        ev0 = np.linalg.eigvalsh(0.5 * (Lr[0] + Lr[0].T))
+        if ev0.min() <= 0 or ev0.max() >= 50 * ev0.min():
+            tags = tags + ['L0vv_anisotropy>=50']
+        mon.count('L0vv_anisotropy>=50', 'L0vv_anisotropy>=50' in tags)
+        # rounding of the linear solves grows with the spread of the rates
+        spread = float(np.exp(np.ptp(args[3])))
         dt = lambda: str(desc)
         def ident_err(dd):
             L = dd.Lij(*args)
@@ -87,7 +93,7 @@ def run_case(case):
             mon.check(ok, 'C06:real:identities-converge', lambda: 'tracer identity error %.3e (NGFmax=4) -> %s (8, 12) %s' % (m4, ms, desc), tags)
         mon.close(Lr[2], -Lr[0], max(1e-5, 1.0001 * m4), 'C06:real:Lsv=-L0vv', dt, tags, scale=sc)
         mon.close(Lr[3], 0 * Lr[3], max(1e-5, 1.0001 * m4), 'C06:real:L1vv=0', dt, tags, scale=sc)
-        mon.close(Ls[2], -Ls[0], 1e-9, 'C06:stub:Lsv=-L0vv', dt, tags, scale=sc)
+        mon.close(Ls[2], -Ls[0], 1e-9 * max(1., spread / 100.), 'C06:stub:Lsv=-L0vv', dt, tags, scale=sc)
         mon.close(Ls[3], 0 * Ls[3], 1e-9 * tor.M if 'origin_states' not in tags else 1e-4, 'C06:stub:L1vv=0', dt, tags, scale=sc)
         lo = np.linalg.eigvalsh(0.5 * (Lr[1] + Lr[1].T)).min()
         hi = np.linalg.eigvalsh(0.5 * ((Lr[0] - Lr[1]) + (Lr[0] - Lr[1]).T)).min()
@@ -107,6 +113,6 @@ def run_case(case):
                   lambda: 'lambda_min(Lss)=%.3e lambda_min(L0vv-Lss)=%.3e %s' % (lo, hi, desc), tags)
         # exact chain value of the tracer correlation
         L0c, Lssc, Lsvc, L1c = tor.predict(args)
-        mon.close(Ls[1], Lssc, 1e-9, 'C06:stub:Lss=chain', dt, tags, scale=sc)
+        mon.close(Ls[1], Lssc, 1e-9 * max(1., spread / 100.), 'C06:stub:Lss=chain', dt, tags, scale=sc)
         mon.close(Lsvc, -L0c, 1e-9, 'C06:chain-selfcheck', dt, [], scale=sc)
     return mon.result(sample=sample)
